@@ -16,7 +16,7 @@
                      block left and is read again *)
 From Coq Require Import NArith ZArith List Bool Arith.
 From Snap.Array Require Import ArrayDefs SyncModel SyncProofsDefs SyncProofsStripe.
-From Snap.Scan Require Import ScanModel ScanInv ScanSound ScanCopy ScanMap ScanPar ScanC06 SyncConverge ScanExamples.
+From Snap.Scan Require Import ScanModel PrehashModel ScanInv ScanSound ScanCopy ScanMap ScanPar ScanC06 SyncConverge Rescan ScanExamples.
 Import ListNotations.
 
 (* 1. scan_sound: for every scan that does not hit an os_abort path, every disk, every listing, every scan order
@@ -121,6 +121,22 @@ Theorem C11_sync_loop_converges :
 Proof. exact sync_loop_converges. Qed.
 Print Assumptions C11_sync_loop_converges.
 
+(* 5. sync_converges, second half: a content whose every disk records exactly its listing (`recorded`: one file per regular
+      file with its size, time-stamp and inode, distinct paths and inodes, the symlinks with their targets, the empty
+      directories; every block BLK) and has no DELETED entry left is a fixed point of the scan: the scan succeeds, returns
+      the content unchanged, counts nothing but `equal`, and diff exits 0.
+      (`recorded` is what C11_scan_sound + C11_sync_loop_converges + save_normalise leave for a listing with distinct paths
+      and inodes and no second name of an inode; that glue is checked by the harness on every history, not proved.) *)
+Theorem C11_rescan_converged :
+  forall (basef : N -> N) (bs : N) (clearpast nocopy : bool) (inf : list (option info)) (usable : list bool)
+         (c : content) (L : list (list lentry)),
+    (forall k d, nth k (c_disks c) None = Some d -> recorded d (nth k L []) /\ cd_deleted d = []) ->
+    (forall k, nth k (c_disks c) None = None -> nth k L [] = []) ->
+    exists o, scan basef bs clearpast nocopy inf usable c L = Some o /\
+              sc_content o = c /\ cnt_differs (sc_cnt o) = false /\ diff_exit o = 0.
+Proof. exact rescan_converged. Qed.
+Print Assumptions C11_rescan_converged.
+
 (* --- non-vacuity (Scan/ScanExamples.v): two disks; one file unchanged, one rewritten, a symlink retargeted, an empty
    directory replaced by another, a copy on the other disk ----------------------------------------------------------- *)
 Example C11_ex_scan :
@@ -133,3 +149,34 @@ Example C11_ex_scan :
               | None => False end
   | None => False end.
 Proof. vm_compute. repeat split; reflexivity. Qed.
+
+(* the whole cycle on the instance: scan, sync loop (the copy is a true copy), save, scan again: nothing differs, exit 0 *)
+Example C11_ex_converges :
+  match ex_run false 2%N with
+  | Some r => sync_fails r = false /\
+              match diff_scan ex_base 1024%N [true; true] (save_normalise (sy_content r)) ex_L with
+              | Some o2 => sc_cnt o2 = mkCnt 5 0 0 0 0 0 0 /\ diff_exit o2 = 0 /\ c_disks (sc_content o2) = c_disks (save_normalise (sy_content r))
+              | None => False end
+  | None => False end.
+Proof. vm_compute. repeat split; reflexivity. Qed.
+
+(* `recorded` is satisfiable: one file, one symlink, one empty directory *)
+Example C11_ex_recorded :
+  recorded (mkCD [mkCF 1%N 10%N 5%Z 6%Z 7%N false [mkFB SBlk 0 (HReal 3%N)]] [] [mkCL 2%N 9%N false] [3%N])
+           [mkLE LFile 1%N 10%N 5%Z 6%Z 7%N 1%N 0%N 0%N; mkLE LSym 2%N 0%N 0%Z 0%Z 8%N 1%N 9%N 0%N; mkLE LDir 3%N 0%N 0%Z 0%Z 9%N 2%N 0%N 0%N].
+Proof.
+  constructor; simpl.
+  - repeat constructor; simpl; intuition discriminate.
+  - repeat constructor; simpl; intuition.
+  - repeat constructor; simpl; intuition.
+  - intros e [H|[H|[H|[]]]] K; subst e; simpl in K; try discriminate. eexists. split; [left; reflexivity|]. unfold ematch; simpl; repeat split.
+  - intros f [H|[]]. subst f. split.
+    + intros b [Hb|[]]. subst b. reflexivity.
+    + eexists. split; [left; reflexivity|]. split; [reflexivity|]. unfold ematch; simpl; repeat split.
+  - repeat constructor; simpl; intuition.
+  - intros e [H|[H|[H|[]]]] K; subst e; simpl in K; try discriminate. left. reflexivity.
+  - intros l [H|[]]. subst l. eexists. split; [right; left; reflexivity|]. split; reflexivity.
+  - repeat constructor; simpl; intuition.
+  - intros e [H|[H|[H|[]]]] K; subst e; simpl in K; try discriminate. left. reflexivity.
+  - intros n0 [H|[]]. subst n0. eexists. split; [right; right; left; reflexivity|]. split; reflexivity.
+Qed.
